@@ -95,12 +95,16 @@ func zzPlaintext13RoundTrip() {
 // ignored); otherwise accepted with header fields from the RFC offsets. Accepted alert/ACK records
 // whose version is {254,253} re-encode to the input itself (fixed point); accepted records with any
 // other (ignored) legacy version must still be re-encodable to a canonical form that is a fixed point
-// (own label). Handshake bodies are not judged here.
+// (own label). Records of type handshake(22) are excluded here (bodies judged by the handshake
+// harnesses; the dispatch is covered by zzPlaintext13RoundTrip and zzPlaintext13ClientHelloLegacyVersion).
 //
-//symgo:entry covers=p13_short,p13_bad_epoch,p13_len_mismatch_trunc,p13_len_mismatch_trailing,p13_bad_type,p13_bad_body,p13_ok_alert,p13_ok_ack,p13_hs_any,p13_other_version_accepted
+//symgo:entry covers=p13_short,p13_bad_epoch,p13_len_mismatch_trunc,p13_len_mismatch_trailing,p13_bad_type,p13_bad_body,p13_ok_alert,p13_ok_ack,p13_other_version_accepted
 func zzPlaintext13DecodeRef() {
 	ln := zzsymChoice("len", 13+zzsymParam("NP13BODY")+1)
 	data := zzsymBytes("d", ln)
+	if ln > 0 {
+		zzsymAssume(data[0] != 22) // handshake bodies: handshake_*.go harnesses and C08
+	}
 	orig := append([]byte{}, data...)
 	var r PlaintextRecord13
 	err := r.Unmarshal(data)
@@ -126,14 +130,13 @@ func zzPlaintext13DecodeRef() {
 		return
 	}
 	ct := orig[0]
-	if zzsymNot(zzsymOr(ct == 21, zzsymOr(ct == 22, ct == 26))) {
+	if zzsymNot(zzsymOr(ct == 21, ct == 26)) {
 		zzsymAssert(err != nil, "p13_bad_type_rejected")
 		zzsymCover("p13_bad_type")
 		return
 	}
 	ok, known := zzRefContentOK(ct, orig[13:])
 	if !known {
-		zzsymCover("p13_hs_any")
 		return
 	}
 	if !ok {
